@@ -147,8 +147,17 @@ def shard_regions_spec(ctx):
             want = p + 1 if i < r else p
             if native(ctx.log, "shard_count", [n, i]) != want:
                 bad.append((n, i))
-    qs.append(Query("real shard_regions(n) gives the first 64%n shards 64/n+1 children and the rest 64/n, n = 1..64",
-                    [z3.BoolVal(bool(bad))], "unsat"))
+    def want(n, i):
+        return 64 // n + 1 if i < 64 % n else 64 // n
+    first = bad[0] if bad else None
+    if isinstance(first, int):
+        dec = lambda m: ("shard_len", [first])
+        viol = lambda args, nat: nat != args[0]
+    else:
+        dec = lambda m: ("shard_count", list(first))
+        viol = lambda args, nat: nat == "panic" or nat != want(args[0], args[1])
+    qs.append(Query("real shard_regions(n) gives the first (64 mod n) shards 64/n+1 children and the rest 64/n, n = 1..64 (first mismatch: %s)" % (first,),
+                    [z3.BoolVal(bool(bad))], "unsat", dec if bad else None, viol if bad else None))
     qs.append(Query("reachable", [z3.BoolVal(True)], "sat"))
     return qs, {"page_cache::shard_regions (executed natively)"}, []
 
